@@ -157,8 +157,8 @@ def request (c : Cfg) (tx : Bool) (stmts : List Stmt) : St :=
 `cfg <idsOnly 0|1> <*|table,table|-> [room]` → `ok`   (`*` no filter, `-` filter matching nothing; room = free channel slots)
 `req <tx 0|1> <stmt;stmt;…|->` → `<group|group|…|-> <pending count>`
 stmt: `ok:<changes>` | `fail:<changes>` | `read:` (no write transaction); changes `.`-separated
-`<table>#<id>#<i|u|d>` or empty. event: `<table>#<id>#<i|u|d>` with suffix `v` when values are
-attached; events `,`-separated. -/
+`<table>#<id>#<i|u|d>#<old rowid>#<new rowid>#<old row|->#<new row|->` or empty (rows hex-encoded).
+event: `<table>#<id>#<op>#<OldRowId>#<NewRowId>#<OldRow|->#<NewRow|->`; events `,`-separated. -/
 
 structure DState where
   cfg : Cfg := { idsOnly := false, tables := none }
@@ -169,12 +169,26 @@ def parseOp (s : String) : Option Op :=
 def opStr : Op → String
   | .insert => "i" | .update => "u" | .delete => "d" | .unknown _ => "?"
 
+def parseRow (s : String) : Option Row :=
+  if s == "-" then some [] else (tokString s).map fun t => [.text t]
+
+def parseIntTok (s : String) : Option Int :=
+  match s.toList with
+  | '-' :: ds => (String.ofList ds).toNat?.map fun n => -(n : Int)
+  | _ => s.toNat?.map fun n => (n : Int)
+
+/-- `<table>#<id>#<i|u|d>#<old rowid>#<new rowid>#<old row|->#<new row|->`; a row travels as one opaque
+hex-encoded value (its canonical rendering by the harness) -/
 def parseChange (s : String) : Option Change :=
   match s.splitOn "#" with
-  | [t, i, o] => do
+  | [t, i, o, oi, ni, orow, nrow] => do
     let n ← i.toNat?
     let op ← parseOp o
-    pure { table := t, id := n, op := op }
+    let oi ← parseIntTok oi
+    let ni ← parseIntTok ni
+    let orow ← parseRow orow
+    let nrow ← parseRow nrow
+    pure { table := t, id := n, op := op, oldRowID := oi, newRowID := ni, old := orow, «new» := nrow }
   | _ => none
 
 def parseStmt (s : String) : Option Stmt :=
@@ -185,8 +199,15 @@ def parseStmt (s : String) : Option Stmt :=
     else if k == "read" then some ⟨[], true, false⟩ else none
   | _ => none
 
+def rowStr : Option Row → String
+  | some [.text t] => hexOfString t
+  | some [] => "x"
+  | some _ => "?"
+  | none => "-"
+
 def evStr (e : Event) : String :=
-  e.table ++ "#" ++ toString e.id ++ "#" ++ opStr e.op ++ (if e.values then "v" else "")
+  "#".intercalate [e.table, toString e.id, opStr e.op, toString e.oldRowId, toString e.newRowId,
+    rowStr e.oldRow, rowStr e.newRow]
 
 def outStr (st : St) : String :=
   (if st.groups.isEmpty then "-" else "|".intercalate (st.groups.map fun g => ",".intercalate (g.map evStr))) ++
